@@ -119,8 +119,8 @@ def gen_paxbody_cases(rng, tier):
                 if rng.random() < 0.75:
                     name = bytes(rng.choice(b'abcXYZ.-_%/ ') for _ in range(rng.choice([1, 2, 10, 60, 127, 128, 128, 129 if rng.random() < 0.2 else 100])))
                     key = b'SCHILY.xattr.' + name
-                else:       # a key the reader does not know, up to what the 512-byte look-ahead holds
-                    key = b'verif.' + bytes(rng.choice(b'abcXYZ.-_%/ ') for _ in range(rng.choice([1, 40, 200, 480, 487, 495])))
+                else:       # a key the reader does not know, on both sides of its initial 512-byte look-ahead
+                    key = b'verif.' + bytes(rng.choice(b'abcXYZ.-_%/ ') for _ in range(rng.choice([1, 40, 200, 480, 495, 499, 500, 501, 505, 506, 512, 600, 1017, 1023, 1500, 2000])))
                 vl = rng.choice([0, 1, 2, 8, 80, 85, 86, 87, 95, 500, 985, 990, 3000])
                 val = bytes(rng.choice([10, 61, 0, 32, 48, 255, 97]) if rng.random() < 0.5 else rng.randrange(256) for _ in range(vl))
                 recs.append(pax_record(key, val))
@@ -570,6 +570,8 @@ def add_extras(rng, fmt, d):
         d['acl'] = ','.join(items)
     if typ in ('reg', 'dir', 'lnk') and 'hard' not in d and rng.random() < 0.3:
         d['xattr'] = ','.join(xattrs(rng))
+    if typ in ('reg', 'dir') and rng.random() < 0.2:
+        d['fflags'] = rng.choice(FFLAGS + (FFLAGS_FOREIGN if fmt in ('pax', 'paxr') else []))
     return d
 
 
@@ -733,6 +735,117 @@ def gen_refusal_cases(rng, tier):
                                bilb=1 if needs_bilb1(fmt) else rng.choice([None, 1]), nread=len(seq) + (12 if fmt == 'iso9660' else 0))
 
 
+LINK_FMTS_ = None
+LINK_FMTS = ['ustar', 'pax', 'paxr', 'gnutar', 'v7tar', 'odc', 'newc', 'bin', 'pwb', 'xar', 'iso9660']
+# names this platform's flag table knows (the mtree writer compares flags by their bits), and two it does not
+FFLAGS = ['nodump', 'schg', 'sappnd', 'noatime', 'nodump,schg', 'compress', 'nodump,sappnd']
+FFLAGS_FOREIGN = ['uappnd', 'uchg', 'nodump,uappnd']
+
+
+def gen_link_cases(rng, tier, mode):
+    """Files with 3..5 names: the body-carrying entry and its hard links, interleaved with other entries,
+    a link sometimes in front of its target, two groups in one archive; every format that stores links
+    (and, rarely, one that does not: the link must then not be accepted silently)."""
+    reps = 2 if tier == 'quick' else 10
+    for fmt in LINK_FMTS * reps + (['zip', '7zip', 'mtree'] if rng.random() < 0.5 or tier != 'quick' else []):
+        ents = []
+        k = 0
+        for g in range(rng.choice([1, 1, 2])):
+            n = rng.choice([3, 3, 4, 5])
+            ino = 70 + g
+            tname = f'g{g}/orig{g}' if rng.random() < 0.7 else f'orig{g}'
+            size = rng.choice([0, 1, 5, 513])
+            nlink = n if rng.random() < 0.8 else n + 2       # names outside the archive
+            tgt = dict(path=hx(tname), type='reg', perm='644', uid='1', gid='2', size=str(size), mtime='1000000000',
+                       dev='5', ino=str(ino), nlink=str(nlink), body=f'{rng.randrange(256)}:{size}')
+            links = [dict(path=hx(rng.choice([f'g{g}/', f'h{g}/', '']) + f'link{g}_{j}'), type='reg', perm='644', uid='1', gid='2',
+                          size='0', mtime='1000000000', dev='5', ino=str(ino), nlink=str(nlink), hard=hx(tname)) for j in range(n - 1)]
+            seq = [tgt] + links
+            if rng.random() < 0.15:
+                seq = [links[0], tgt] + links[1:]             # a link written before its target
+            for e in seq:
+                ents.append(e)
+                if rng.random() < 0.5:
+                    k += 1
+                    o = good_entry(rng, fmt, 40 + k); o['ino'] = str(200 + k); o['nlink'] = '1'
+                    ents.append(o)
+        b1 = ' bilb=1' if needs_bilb1(fmt) else ''
+        extra = 16 if fmt == 'iso9660' else 1
+        ops = [f'open f={fmt}{b1}'] + [ent_line(e) for e in ents] + ['close'] + [f'rd {j}' for j in range(len(ents) + extra)]
+        if fmt in ('ustar', 'pax', 'gnutar', 'odc', 'newc', 'xar') and rng.random() < 0.5:
+            ops += [f'rewrite f={fmt}'] + [f'rd2 {j}' for j in range(len(ents) + extra)]
+        yield Case(f'{mode}-{fmt}-links', ops + ['done'], {'fmt': fmt})
+
+
+MTREE_TOGGLES = ['!uid', '!gid', '!mode', '!time', '!size', '!flags', '!uname', '!gname', '!nlink', '!link', '!device',
+                 'inode', 'resdevice', 'cksum', 'md5', 'sha1', 'sha256', 'sha512', 'rmd160']
+
+
+def gen_mtree_cases(rng, tier, mode):
+    """The mtree writer under every option, on trees of several directories in which the most common
+    uid / gid / mode / flags / type among the children changes from directory to directory (what the
+    `/set` and `/unset` lines of `use-set` are computed from)."""
+    reps = 14 if tier == 'quick' else 150
+    for r in range(reps):
+        opts = []
+        if rng.random() < 0.7:
+            opts.append('use-set')
+        if rng.random() < 0.3:
+            opts.append('indent')
+        if rng.random() < 0.1:
+            opts.append('dironly')
+        if rng.random() < 0.15:
+            opts.append('all')
+        elif rng.random() < 0.1:
+            opts += ['!all', 'type'] + rng.sample(['uid', 'gid', 'mode', 'time', 'size', 'flags', 'link'], 3)
+        opts += rng.sample(MTREE_TOGGLES, rng.choice([0, 0, 1, 2]))
+        ents = []
+        names = rng.random() < 0.4
+        ndirs = rng.choice([2, 3, 4, 5])
+        VALS = dict(uid=['0', '1000', '77'], gid=['0', '100', '5'], perm=['644', '600', '755'],
+                    ff=['', 'nodump', '', 'schg', '', 'nodump,schg'], type=['reg', 'reg', 'dir', 'lnk'])
+        prev = {}
+        for d in range(ndirs):
+            # the most common value of every attribute differs from that of the directory before
+            dom = {}
+            for key, vals in VALS.items():
+                dom[key] = rng.choice([v for v in vals if v != prev.get(key)])
+            prev = dom
+            dname = f'd{d}' if rng.random() < 0.8 or d == 0 else f'd{d - 1}/s{d}'
+            de = dict(path=hx(dname), type='dir', perm='755', uid=dom['uid'], gid=dom['gid'], size='0', mtime=str(10 ** 9 + d), nlink='2')
+            if names:
+                de['uname'] = hx({'0': 'root', '1000': 'user', '77': 'www', '65534': 'nobody'}[de['uid']])
+                de['gname'] = hx({'0': 'wheel', '100': 'users', '5': 'tty'}[de['gid']])
+            if dom['ff'] and rng.random() < 0.5:
+                de['fflags'] = dom['ff']
+            ents.append(de)
+            for c in range(rng.choice([2, 2, 3, 4, 5]) if rng.random() < 0.9 else rng.choice([0, 1])):
+                pick = lambda key, alts: dom[key] if rng.random() < 0.85 else rng.choice(alts)
+                typ = pick('type', ['reg', 'dir', 'lnk'])
+                e = dict(path=hx(f'{dname}/c{c}'), type=typ, perm=pick('perm', ['644', '600', '755', '4755']),
+                         uid=pick('uid', ['0', '1000', '77', '65534']), gid=pick('gid', ['0', '100', '5']),
+                         mtime=str(rng.choice([0, 10 ** 9, 10 ** 9 + c])), nlink='1')
+                ff = pick('ff', ['', 'nodump', 'sappnd', 'schg', 'noatime'])
+                if ff:
+                    e['fflags'] = ff
+                if typ == 'reg':
+                    sz = rng.choice([0, 1, 100]); e['size'] = str(sz); e['body'] = f'{rng.randrange(256)}:{sz}'
+                else:
+                    e['size'] = '0'
+                if typ == 'lnk':
+                    e['sym'] = hx('t/a')
+                if names:     # as on a real system: the name is a function of the id
+                    e['uname'] = hx({'0': 'root', '1000': 'user', '77': 'www', '65534': 'nobody'}[e['uid']])
+                    e['gname'] = hx({'0': 'wheel', '100': 'users', '5': 'tty'}[e['gid']])
+                ents.append(e)
+        o = 'open f=mtree' + (f" opt={','.join(opts)}" if opts else '')
+        ops = [o] + [ent_line(e) for e in ents] + ['close'] + [f'rd {j}' for j in range(len(ents) + 1)]
+        # (with a keyword switched off the read-back form is not the entry any more: no second pass)
+        if rng.random() < 0.3 and 'dironly' not in opts and not any(o.startswith('!') for o in opts):
+            ops += ['rewrite f=mtree'] + [f'rd2 {j}' for j in range(len(ents) + 1)]
+        yield Case(f"{mode}-mtree-opts-{'+'.join(opts) or 'dflt'}", ops + ['done'], {'fmt': 'mtree'})
+
+
 class Codec(Engine):
     name = 'codec'
     extra_cflags = tuple(os.path.join(H, f) for f in INC)
@@ -758,11 +871,11 @@ class Codec(Engine):
             yield from gen_paxbody_cases(rng, tier)
         import itertools
         if self.mode == 'c02':
-            for c in itertools.chain(gen_c02_cases(rng, tier), gen_meta_cases(rng, tier, 'c02')):
+            for c in itertools.chain(gen_c02_cases(rng, tier), gen_meta_cases(rng, tier, 'c02'), gen_link_cases(rng, tier, 'c02'), gen_mtree_cases(rng, tier, 'c02')):
                 if self.bulk or rng.random() < (0.1 if tier == 'quick' else 0.3):
                     yield c
         if self.mode == 'c10':
-            for c in itertools.chain(gen_c10_cases(rng, tier), gen_refusal_cases(rng, tier), gen_meta_cases(rng, tier, 'c10')):
+            for c in itertools.chain(gen_c10_cases(rng, tier), gen_refusal_cases(rng, tier), gen_meta_cases(rng, tier, 'c10'), gen_link_cases(rng, tier, 'c10'), gen_mtree_cases(rng, tier, 'c10')):
                 # sanitizer build: a sample; plain build: everything
                 if self.bulk or rng.random() < (0.06 if tier == 'quick' else 0.25):
                     yield c
